@@ -149,6 +149,23 @@ def hand_items(ids):
                                         Field("last", T.Option(I("u8")))], [[("rename_all", "camelCase")]]),
                           Variant("W", [Field("foo_bar", I("u8")), Field("fooBar", T.Bool)])],
       [[("tag", "t"), ("rename_all", "lowercase")]])
+    # a wide struct (more fields than the small-slice thresholds of the standard sorts: 20) with skipped fields in the
+    # middle: declaration order of the non-skipped fields must survive in the accepted-keys list and the missing reports
+    wide = []
+    for n in range(26):
+        nm = "f%02d_%s" % (n, "abcdefghijklmnopqrstuvwxyz"[(n * 7) % 26])
+        ty = [I("u8"), T.Bool, T.String, T.Option(I("u8"))][n % 4]
+        at = []
+        if n in (3, 11, 12, 20):
+            at = [[("skip",)]]
+        elif n in (5, 17):
+            at = [[("default", None)]]
+        elif n == 8:
+            at = [[("rename", "zz_renamed")]]
+        wide.append(Field(nm, ty, at))
+    S("HWide", wide, [[("deny", None)]])
+    E("HWideVariant", [Variant("Big", [Field(fl.ident, fl.ty, copy.deepcopy(fl.attrs)) for fl in wide[:23]]), Variant("Small", [Field("x", I("u8"))])],
+      [[("tag", "kind")], [("deny", f())], [("where_uerr",)]])
     # generic derive inputs (the impl header the derive assembles: parameters, their bounds, a where clause, the added
     # `T: Deserr<E>` predicates); the model is given the instance the catalogue uses
     TO = "crate::out::ToOut"
@@ -754,7 +771,7 @@ def mutate_once(p, rng, extra_keys=()):
     cur = get_at(p, path)
     ops = ["wrong", "wrong", "null"]
     if isinstance(cur, list):
-        ops += ["drop_elem", "add_elem", "add_elem"]
+        ops += ["drop_elem", "add_elem", "add_elem", "dup_elem"]
     if isinstance(cur, dict) and "m" in cur:
         ops += ["del_member", "del_member", "extra_key", "extra_key", "near_key", "dup_member", "shuffle", "rename_key"]
     if isinstance(cur, dict) and ("i" in cur or "n" in cur):
@@ -778,6 +795,8 @@ def mutate_once(p, rng, extra_keys=()):
     new = copy.deepcopy(cur)
     if op == "drop_elem" and new:
         del new[rng.randrange(len(new))]
+    elif op == "dup_elem" and new:
+        new.insert(rng.randint(0, len(new)), copy.deepcopy(rng.choice(new)))
     elif op == "add_elem":
         new.insert(rng.randint(0, len(new)), copy.deepcopy(rng.choice(WRONG + (new[:1] if new else []))))
     elif op == "del_member" and new["m"]:
@@ -900,6 +919,16 @@ def gen_payloads(entry, rng, n, max_faults=3):
                 elif it.kind == "enum" and isinstance(base, dict) and "m" in base:
                     base["m"] = [[k, (typo if k == it.get("tag")[1] else v)] for k, v in base["m"]]
                     out.append((base, 1))
+    # sequences that repeat a valid element before (and after) a faulty one: sets absorb repeats, so anything that
+    # counts kept elements instead of consumed ones mislabels the reports that follow
+    base = gen_valid(entry.ty, rng)
+    seqs = [path for path in positions(base) if isinstance(get_at(base, path), list) and get_at(base, path)]
+    for path in (rng.sample(seqs, 3) if len(seqs) > 3 else seqs):
+        cur = get_at(base, path)
+        x0 = cur[0]
+        bad = lambda: copy.deepcopy(rng.choice(WRONG))
+        for new in ([x0, x0] + cur[1:] + [bad()], [x0, x0, x0, bad()] + cur[1:] + [bad()], cur + [x0, bad(), x0], [x0] + cur + [bad(), bad()]):
+            out.append((set_at(base, path, copy.deepcopy(new)), -1))
     # fault families that random mutation reaches too rarely
     if contains_json(entry.ty):
         # serde_json::Value positions: their only faults are non-finite floats (order-preserving source only)
